@@ -59,6 +59,8 @@ def _other_mutation(fn: ast.FunctionDef) -> list[str]:
                         out.append(f"assignment@{n.lineno}")
         elif isinstance(n, ast.Delete):
             for t in n.targets:
+                if isinstance(t, ast.Subscript) and _is_stack(t.value) and isinstance(t.slice, ast.Slice) and t.slice.upper is None and t.slice.step is None and isinstance(t.slice.lower, ast.Name):
+                    continue  # `del stack[saved:]`: the restore form, modelled by the encoder
                 for s in ast.walk(t):
                     if _is_stack(s):
                         out.append(f"del@{n.lineno}")
